@@ -37,6 +37,7 @@ class Gen:
         self._loop = False      # inside a for-of body of the current function: `break` allowed
         self._func = False      # inside a function body: `return` allowed
         self._retval = ""       # what `return` returns here (iterator return() callbacks must return an object)
+        self.slots = 0          # generator objects live in global variables g1..g<slots>
 
     def ctx(self, loop=None, func=None, retval=None):
         """context manager: generate a sub-tree under another syntactic context"""
@@ -70,12 +71,51 @@ class Gen:
             strict = getattr(self, '_strict', False)
         r = self.rng
         if d <= 0:
-            c = r.choice(["P", "P", "P", "T", "K", "tmpP", "BR", "RT"])
+            c = r.choice(["P", "P", "P", "T", "K", "tmpP", "BR", "RT", "gop"])
         else:
             c = r.choice(["P", "S", "S", "S", "call", "forEach", "try", "try", "try", "forOf", "forOfC", "block",
-                          "gnat", "job", "tmpP", "T", "ref", "priv", "priv", "BR", "RT"])
+                          "gnat", "job", "tmpP", "T", "ref", "priv", "priv", "BR", "RT", "gen", "gen", "gop", "gop", "gop", "async", "async"])
             if strict and c == "ref":
                 c = "block"          # class bodies are strict code: no `with`
+        if c == "gop" and self.slots == 0:
+            c = "gen" if d > 0 else "P"
+        if c == "gen":
+            # create a generator whose body is 1..3 segments separated by top-level yields
+            self.slots += 1
+            slot = self.slots
+            n = r.randint(0, 2)
+            nseg = r.randint(1, 3)
+            segs = []
+            with self.ctx(func=True):
+                for _ in range(nseg):
+                    segs.append(self.beh(d - 1))
+            toks = list(segs[-1][0])
+            for st, _ in reversed(segs[:-1]):
+                toks = ["YT"] + st + toks
+            js = " yield 1; ".join(j for _, j in segs)
+            return ["GC", str(slot), str(n)] + toks, "g%d = (function*(){ %s })(%s);" % (slot, js, ",".join("0" * n))
+        if c == "async":
+            # an async function whose body is 1..3 segments separated by top-level awaits of a settled value; the
+            # continuations run as promise reaction jobs when the outermost call leaves
+            n = r.randint(0, 2)
+            nseg = r.randint(1, 3)
+            segs = []
+            with self.ctx(func=True):
+                for _ in range(nseg):
+                    segs.append(self.beh(d - 1))
+            toks = list(segs[-1][0])
+            for st, _ in reversed(segs[:-1]):
+                toks = ["YT"] + st + toks
+            js = " await 0; ".join(j for _, j in segs)
+            return ["AC", str(n)] + toks, "(async function(){ %s })(%s);" % (js, ",".join("0" * n))
+        if c == "gop":
+            slot = r.randint(1, self.slots)
+            op = r.choice(["GN", "GN", "GN", "GT", "GR"])
+            if op == "GN":
+                return ["Fn", "0", "GN", str(slot)], "g%d.next();" % slot
+            if op == "GT":
+                return ["Fn", "1", "GT", str(slot)], "g%d.throw(new Error('gt'));" % slot
+            return ["Fn", "1", "GR", str(slot)], "g%d.return(0);" % slot
         if c == "BR" and not self._loop:
             c = "RT"
         if c == "RT" and not self._func:
@@ -267,7 +307,8 @@ def gen_history(rng, depth, ncalls=None, maxdepth=None, fault=None):
         t, c = g.call(depth, fl)
         mtoks.append(t)
         calls.append(c)
-    return {"max": mx, "prelude": "var WO = {wv:0};\n" + "\n".join(g.prelude), "calls": calls, "natives": g.natives, "_model": mtoks}
+    decl = "".join("var g%d = (function*(){})(); g%d.next();\n" % (i, i) for i in range(1, g.slots + 1))
+    return {"max": mx, "prelude": "var WO = {wv:0};\n" + decl + "\n".join(g.prelude), "calls": calls, "natives": g.natives, "_model": mtoks}
 
 
 def model_line(h):
@@ -498,10 +539,17 @@ def strip_probe(line):
 def main(ctx):
     tier = ctx.tier
     ok, errs = ctx.lake_build(["GojaModel.C03.Props", "model_c03"])
-    ctx.audit("GojaModel.C03.Props", expect_min=12)
+    ctx.audit("GojaModel.C03.Props", expect_min=20)
+    # regenerated facts: statement / decision skeletons of the transcribed Go functions, compared inside Lean
+    if ctx.regen():
+        tie_ok, _ = ctx.lake_build(["GojaModel.C03.Tie"])
+        if tie_ok:
+            ctx.audit("GojaModel.C03.Tie", expect_min=40)
     if tier == "thorough":
         ctx.leanchecker("GojaModel.C03.Props")
+    ctx.log("lean done")
     harness = ctx.go_build()
+    ctx.log("harness built")
     model = ctx.model_exe()
     if not os.path.exists(model):
         ctx.obligation("tie.model-driver", "tie", False, "model_c03 not built")
@@ -542,7 +590,9 @@ def main(ctx):
     hsA = corpus["A"] + hsA
 
     outs = [x for part in run_parallel(lambda p: run.impl(p)[0], hsA) for x in part]
+    ctx.log("stream A: harness done")
     mouts = run.mod(hsA) if model else None
+    ctx.log("stream A: model done")
     ctx.count(len(hsA))
     agree = True
     ndiff = 0
@@ -594,6 +644,7 @@ def main(ctx):
     rngB = random.Random(ctx.seed * 104729 + 7)
     hsB = corpus["B"] + [gen_wild(rngB) for _ in range(nB)]
     outsB = [x for part in run_parallel(lambda p: run.impl(p)[0], hsB) for x in part]
+    ctx.log("stream B done")
     ctx.count(len(hsB))
     wild_abrupt = 0
     for h, line in zip(hsB, outsB):
@@ -710,9 +761,8 @@ def func_body(src, header):
 
 
 def source_facts(ctx):
-    """Regenerated facts (textual, from the working tree): the recover() sites of the root package, and the
-    statements of the functions the model transcribes, in the exact form the model assumes (fixed code).
-    A new / removed recover site or a changed statement breaks the tie."""
+    """Regenerated fact (textual, from the working tree): the set of recover() sites of the root package — the Go
+    boundaries the model knows.  (The statements of the transcribed functions are tied in Lean: GojaModel/C03/Tie.lean.)"""
     import re
     expected = {
         ("vm.go", "try"), ("vm.go", "runTryInner"), ("runtime.go", "RunProgram"), ("runtime.go", "runWrapped"),
@@ -739,57 +789,6 @@ def source_facts(ctx):
     ctx.stats["recover_sites"] = sorted("%s:%s" % k for k in found)
     ctx.obligation("tie:recover-sites", "tie", keys == expected,
                    "missing=%s extra=%s" % (sorted(expected - keys), sorted(keys - expected)))
-    need = {
-        ("vm.go", "func (vm *vm) handleThrow("): [
-            "if tf.catchPos == -1 && tf.finallyPos == -1 || ex == nil && tf.catchPos != tryPanicMarker {",
-            "if int(tf.callStackLen) < len(vm.callStack) {", "vm.callStack = vm.callStack[:tf.callStackLen]",
-            "ctx.prg, ctx.newTarget, ctx.result, ctx.pc, ctx.sb, ctx.args",
-            # the registers are restored OUTSIDE the `callStackLen < len(callStack)` branch, unconditionally:
-            "vm.callStack = vm.callStack[:tf.callStackLen]\n\t\t}\n\t\tvm.sp = int(tf.sp)\n\t\tvm.stash = tf.stash\n\t\tvm.privEnv = tf.privEnv\n\t\t_ = vm._restoreStacks(",
-            "vm._restoreStacks(tf.iterLen, tf.refLen, ex != nil)", "tf = &vm.tryStack[len(vm.tryStack)-1]",
-            "if tf.catchPos == tryPanicMarker {\n\t\t\tbreak", "tf.catchPos = -1\n\t\t\treturn nil",
-            "tf.finallyPos = -1\n\t\t\ttf.finallyRet = -1\n\t\t\treturn nil", "if ex == nil {\n\t\tpanic(arg)"],
-        ("vm.go", "func (vm *vm) _restoreStacks("): [
-            "defer func() {", "vm.iterStack = vm.iterStack[:iterLen]", "vm.refStack = vm.refStack[:refLen]",
-            "iter != nil && closeIters {", "ex1 := vm.try(func() {"],
-        ("vm.go", "func (vm *vm) pushCtx("): ["if len(vm.callStack) > vm.maxCallStackSize {", "vm.saveCtx(ctx)"],
-        ("vm.go", "func (vm *vm) pushTryFrame("): ["callStackLen: uint32(len(vm.callStack)),", "iterLen:      uint32(len(vm.iterStack)),",
-                                                  "refLen:       uint32(len(vm.refStack)),", "sp:           int32(vm.sp),",
-                                                  "stash:        vm.stash,", "privEnv:      vm.privEnv,"],
-        ("vm.go", "func (enterFinally) exec("): ["tf.finallyPos = -1", "tf.catchPos = -1"],
-        ("vm.go", "func (vm *vm) try("): ["vm.pushTryFrame(tryPanicMarker, -1)", "defer vm.popTryFrame()", "ex = vm.handleThrow(x)"],
-        ("func.go", "func (f *baseJsFuncObject) __call("): [
-            "vm.pushTryFrame(tryPanicMarker, -1)\n\tdefer vm.popTryFrame()", "if vm.prg != nil {\n\t\tvm.pushCtx()",
-            "vm.callStack = append(vm.callStack, context{pc: -2})", "vm.pc = -2\n\t\tvm.pushCtx()", "ex := vm.runTryInner()",
-            "if needPop {\n\t\tvm.popCtx()"],
-        ("runtime.go", "func (r *Runtime) RunProgram("): [
-            "recursive := len(vm.callStack) > 0", "if pushed {\n\t\t\t\tvm.sp -= 2\n\t\t\t\tvm.popCtx()",
-            "vm.callStack = vm.callStack[:len(vm.callStack)-1]", "if len(vm.callStack) == 0 {\n\t\t\t\t\tr.leaveAbrupt()",
-            "vm.pushCtx() // may panic with a StackOverflowError\n\t\tpushed = true", "vm.callStack = append(vm.callStack, context{})",
-            "ex := vm.runTry()", "vm.prg = nil\n\t\tvm.sb = -1\n\t\tr.leave()"],
-        ("runtime.go", "func (r *Runtime) runWrapped("): [
-            "if len(r.vm.callStack) == 0 {\n\t\t\t\t\tr.leaveAbrupt()", "ex := r.vm.try(f)", "if len(r.vm.callStack) == 0 {\n\t\tr.leave()"],
-        ("runtime.go", "func (r *Runtime) Try("): ["if len(r.vm.callStack) == 0 && asUncatchableException(x) != nil {\n\t\t\t\tr.leaveAbrupt()", "return r.vm.try(f)"],
-        ("runtime.go", "func (e *Exception) valueString("): [
-            "if r := obj.runtime; len(r.vm.callStack) == 0 && asUncatchableException(x) != nil {\n\t\t\t\tr.leaveAbrupt()",
-            "if ex := obj.runtime.vm.try(func() {\n\t\ts = obj.String()"],
-        # outside the mechanism model, but fields of the Idle vector depend on them (vm.curAsyncRunner must be reset on every exit)
-        ("func.go", "func (ar *asyncRunner) onFulfilled("): ["ar.gen.vm.curAsyncRunner = ar\n\tdefer func() {\n\t\tar.gen.vm.curAsyncRunner = nil\n\t}()"],
-        ("func.go", "func (ar *asyncRunner) onRejected("): ["ar.gen.vm.curAsyncRunner = ar\n\tdefer func() {\n\t\tar.gen.vm.curAsyncRunner = nil\n\t}()"],
-        ("runtime.go", "func (r *Runtime) leaveAbrupt("): ["r.jobQueue = nil", "r.ClearInterrupt()", "r.vm.prg = nil", "r.vm.sb = -1"],
-        ("runtime.go", "func (r *Runtime) leave("): ["for len(r.jobQueue) > 0 {", "jobs, r.jobQueue = r.jobQueue, jobs[:0]", "r.jobQueue = nil"],
-    }
-    lacking = []
-    for (fn, header), stmts in need.items():
-        body = func_body(srcs.get(fn, ""), header)
-        if not body:
-            lacking.append("%s: %s not found" % (fn, header))
-            continue
-        for st in stmts:
-            if st not in body:
-                lacking.append("%s %s lacks `%s`" % (fn, header, st.replace("\n", " ").replace("\t", "")))
-    ctx.stats["transcribed_functions_checked"] = len(need)
-    ctx.obligation("tie:transcribed-statements", "tie", not lacking, "; ".join(lacking)[:1500])
 
 
 def replay(ctx, path):
@@ -809,3 +808,62 @@ def replay(ctx, path):
         rc, out2, err = ctx.run_lines([model], [o["model_line"]])
         print("model:", out2[0] if out2 else err)
     return 1 if bad else 0
+
+
+# ------------------------------------------------------------------------------------------- maintenance helper
+TIE_MODEL_OF = {
+    "saveCtx": "saveCtx", "pushCtx": "pushCtx (depth limit `>`; overflow = none)", "restoreCtx": "restoreCtx", "popCtx": "popCtx",
+    "pushTryFrame": "pushTryFrame", "popTryFrame": "popTryFrame", "restoreStacks": "restoreStacks … true",
+    "restoreStacks'": "restoreStacks / closeIters (deferred truncation, close only if closeIters)",
+    "handleThrow": "handleThrowLoop / restoreFrame / handleThrow", "throw": "`thrown` outcome (in-loop handleThrow)",
+    "vmTry": "tryB / unwindAtMarker", "runTry": "runTryB", "runTryInner": "unwindAtMarker",
+    "tryExec": "tryStmt (pushTryFrame catchPos finallyPos)", "leaveTryExec": "leaveTry / exitThrough",
+    "enterFinallyExec": "leaveTry (finally branch: both positions cleared)", "leaveFinallyExec": "finPhase",
+    "retExec": "FrameKind.post (.call) / goCallRet / genFinish", "enumPopCloseExec": "frameExit (.forOf)", "enumPopExec": "FrameKind.post (.forOf)",
+    "jsCall": "goCallEnter / goCall / goCallRet", "jsVmCall": "FrameKind.pre (.call)", "nativeVmCall": "FrameKind.pre/post (.native)",
+    "runProgram": "runProgramRec / runProgramOuter / recEnter / recExit / outerEnter / outerPop",
+    "runWrapped": "runWrapped / leaveOrClear", "runtimeTry": "runtimeTry", "leave": "leaveLoop / runJobs", "leaveAbrupt": "leaveAbrupt",
+    "valueString": "API kind ER (= tryGet path)",
+    "genEnter": "genNew", "genEnterNext": "genEnterNext", "genStoreLengths": "genEnterNext (lengths = the marker's position)",
+    "genStep": "genNext (uncatchable: marker dropped by the deferred function = unwindAtMarker's pop)",
+    "genStep1": "genNext / genLeave / genFinish (the `returning` branch is outside the model)", "genNext": "genNext / genLeave / genFinish",
+    "genNextThrow": "genThrow", "genDropMarkerOnPanic": "genNew (second pushCtx overflow)", "vmSuspend": "genLeave (no live records at a top-level yield)",
+    "vmResume": "genEnterNext", "genObjInit": "genNew", "genObjNext": "genNext (state machine)", "genObjThrow": "genThrow", "genObjReturn": "genReturn",
+    "asyncOnFulfilled": "asyncResume (curAsyncRunner itself: Idle vector only)", "asyncOnRejected": "asyncResume's throw-in variant (not modelled: awaits of settled values only)",
+    "asyncStart": "asyncNew / actEnter / actCall / actBack", "asyncStep": "asyncNew / asyncResume (await = queue the continuation; done / ex = settle the promise)",
+}
+
+
+def write_tie():
+    """Rewrite lean/GojaModel/C03/Tie.lean from the CURRENT generated skeleton: run only after reviewing a change of the
+    Go sources against the model (`python3 run/c03.py --write-tie`)."""
+    import re
+    g = open(os.path.join(LEAN, "GojaModel", "Generated", "C03_Skeleton.lean")).read()
+    body = g[g.index("namespace GojaModel.Generated.C03") + len("namespace GojaModel.Generated.C03"):g.index("end GojaModel.Generated.C03")]
+    out = ['''/-
+  C03 — Tie: the statement / decision skeleton of every Go function the model transcribes, REGENERATED from
+  /repo's current source on every run (extract/c03.go → GojaModel/Generated/C03_Skeleton.lean), must equal
+  the skeleton the model was written against (`Expected`, below; each list names the model definition that
+  transcribes it).  Only statements touching control state are part of a skeleton (see extract/c03.go).
+  Maintained with `python3 run/c03.py --write-tie` after a reviewed change.
+-/
+import GojaModel.Generated.C03_Skeleton
+
+namespace GojaModel.C03.Expected
+''']
+    names = []
+    for m in re.finditer(r"^def (\S+) : List \(Nat × String\) := \[\n(.*?)\]\n", body, re.M | re.S):
+        n = m.group(1)
+        names.append(n)
+        out.append("/-- model: `%s` -/\n%s" % (TIE_MODEL_OF.get(n, n), m.group(0)))
+    out.append("end GojaModel.C03.Expected\n\nnamespace GojaModel.C03.Tie\nopen GojaModel\n")
+    for n in names:
+        out.append("theorem %s_tie : Generated.C03.%s = C03.Expected.%s := rfl\n" % (n.replace("'", "_"), n, n))
+    out.append("end GojaModel.C03.Tie\n")
+    open(os.path.join(LEAN, "GojaModel", "C03", "Tie.lean"), "w").write("\n".join(out))
+    print("Tie.lean rewritten with", len(names), "skeletons")
+
+
+if __name__ == "__main__":
+    if "--write-tie" in sys.argv:
+        write_tie()
